@@ -30,6 +30,9 @@ SNIPPETS = [
     "int\tf(void)\n{\n\treturn (a && -b || ~c);\n}\n", "/* c */ int\ta; // d\n/*\n** e\n*/\n",
     "typedef struct s_toto\tt_toto;\nunion u_toto\t\t\t\tvar;\nint\t\t\t\t\t\t\tg_int, g_b, *g_c[2];\n",
     "int\tf(void)\n{\n\tint\ta, b;\n\tchar\t*c, **d;\n\n\treturn (0);\n}\n",
+    # keywords where a macro name is expected (value-less tokens in directive arguments)
+    "#ifndef NULL\n# define NULL 0\n#endif\n", "#define inline\n#define const\n#undef int\n#ifdef while\n#endif\n",
+    "#ifndef A_H\n# define A_H\n# ifndef NULL\n#  define NULL 0\n# endif\n#endif\n", "#if defined(NULL) && !defined(int)\n#endif\n",
 ]
 
 
